@@ -168,8 +168,8 @@ def prove(ctx, prop_mods):
     cur = None
     axioms = {}
     for line in out.split("\n"):
-        m = re.match(r"'([^']+)' depends on axioms: \[(.*)\]", line)
-        m2 = re.match(r"'([^']+)' does not depend on any axioms", line)
+        m = re.match(r"'(.+)' depends on axioms: \[(.*)\]", line)
+        m2 = re.match(r"'(.+)' does not depend on any axioms", line)
         if m:
             axioms[m.group(1)] = [a.strip() for a in m.group(2).split(",")]
             cur = None if line.rstrip().endswith("]") else m.group(1)
@@ -177,7 +177,7 @@ def prove(ctx, prop_mods):
             axioms[m2.group(1)] = []
         elif line.startswith("'") and "depends on axioms: [" in line:
             # multi-line list
-            name = line.split("'")[1]
+            name = line[1:line.index("' depends on axioms")]
             axioms[name] = [a.strip() for a in line.split("[", 1)[1].rstrip("]").split(",") if a.strip()]
             cur = name
         elif cur is not None:
@@ -376,3 +376,16 @@ def load_corpus(pid):
                 if line and not line.startswith("#"):
                     out.append(line)
     return out
+
+
+def extract(ctx, names=None):
+    """Step 1 of every check: regenerate the translated tables from /repo's current sources."""
+    from . import extract as X
+    changed, errors = X.extract_all(names)
+    ctx.extract_changed, ctx.extract_errors = changed, errors
+    if changed:
+        ctx.notes.append(f"translated tables changed since the last run: {changed}")
+    if errors:
+        ctx.notes.append(f"extraction failed: {errors}")
+        ctx.broken_theorems += [f"extraction: {e}" for e in errors]
+    return not errors
